@@ -346,9 +346,22 @@ func (o *oracle) after(s *sim, sp *runSpec, pre *preState, outcome string) (stri
 	// ---- revocations accepted in this run (ground truth + the implementation's own counter)
 	var revokedNow []int
 	if accepted && (full || revOnly) && s.lastRevokedDelta > 0 {
+		var cands []int
 		for _, k := range sp.fetch {
-			if k.revoked() && k.sep() && hasKey(sp.signers, k.id, k.flags) && hasKey(trusted, k.id, k.flags^0x80) && !hasInt(revokedNow, k.id) {
-				revokedNow = append(revokedNow, k.id)
+			if k.revoked() && k.sep() && hasKey(sp.signers, k.id, k.flags) && hasKey(trusted, k.id, k.flags^0x80) && !hasInt(cands, k.id) {
+				cands = append(cands, k.id)
+			}
+		}
+		if int(s.lastRevokedDelta) >= len(cands) {
+			revokedNow = cands
+		} else {
+			// the implementation accepted fewer revocations than the set carries (it
+			// may ignore one, e.g. when the REVOKE form's tag is not tag+128 because
+			// of a carry in the tag fold): accepted are those it left a record of
+			for _, m := range cands {
+				if recordOf(stateAfter, tombAfter, m) && !recordOf(pre.state, pre.tomb, m) {
+					revokedNow = append(revokedNow, m)
+				}
 			}
 		}
 	}
@@ -400,7 +413,7 @@ func (o *oracle) after(s *sim, sp *runSpec, pre *preState, outcome string) (stri
 			if _, known := o.lostBy[m]; !known {
 				if cause == "" {
 					flag(fail("autota/revocation-record/lost", "material %d: state %s -> %s tomb %s -> %s", m, pre.state, stateAfter, pre.tomb, tombAfter))
-					cause = "unexplained"
+					cause = "record-lost"
 				}
 				o.lostBy[m] = cause
 			}
